@@ -344,3 +344,13 @@ Proof.
              H1 H2 H3 H4 H5 H6 H7 H8 H9 H10 H11 H12 H13 H14 H15 H16 H17 H18).
   - apply no_relocation_when_disabled.
 Qed.
+
+(* ------------------------------------------------------------------ F. through .gnu_debuglink *)
+(* a stripped file with a valid link: the answer is that of the debug file for the CALLER's flag;
+   with the flag off, the debug file's raw section bytes *)
+Theorem debuglink_flag_forwarded le is64 em img secs section own flag :
+  dwarf_via_debuglink true false true (read_dwarf_section le is64 em img secs section) own flag
+  = read_dwarf_section le is64 em img secs section flag
+  /\ dwarf_via_debuglink true false true (read_dwarf_section le is64 em img secs section) own false
+     = Ok (firstn (Z.to_nat (s_size section)) (zskipn (s_off section) img)).
+Proof. split; reflexivity. Qed.
